@@ -51,6 +51,7 @@ def gen(rng, tier, i):
         sc.net["chaos"]["capacity"] = 1 << 20
         sc.net["chaos"]["delay_max_us"] = rng.choice([1000, 5000, 20000])
     sc.net["spawn_yield"] = rng.choice([0, 300])
+    sc.net["lock_yield"] = rng.choice([0, 0, 300])   # seeded scheduling points at the asynchronous locks
     d = sc.add_direct("direct")
     sc.rule("direct")
     pattern = rng.choice(["silent", "trickle-c2s", "trickle-s2c", "burst", "alternate"])
